@@ -58,6 +58,21 @@ def clsPreds : Preds Cls where
   zwj := (· == .zwj)
   extpict := (· == .extpict)
 
+@[simp] theorem clsPreds_prepend (c : Cls) : clsPreds.prepend c = (c == .prepend) := rfl
+@[simp] theorem clsPreds_cr (c : Cls) : clsPreds.cr c = (c == .cr) := rfl
+@[simp] theorem clsPreds_lf (c : Cls) : clsPreds.lf c = (c == .lf) := rfl
+@[simp] theorem clsPreds_control (c : Cls) : clsPreds.control c = (c == .control) := rfl
+@[simp] theorem clsPreds_extend (c : Cls) : clsPreds.extend c = (c == .extend) := rfl
+@[simp] theorem clsPreds_ri (c : Cls) : clsPreds.ri c = (c == .ri) := rfl
+@[simp] theorem clsPreds_spacing (c : Cls) : clsPreds.spacing c = (c == .spacing) := rfl
+@[simp] theorem clsPreds_l (c : Cls) : clsPreds.l c = (c == .l) := rfl
+@[simp] theorem clsPreds_v (c : Cls) : clsPreds.v c = (c == .v) := rfl
+@[simp] theorem clsPreds_t (c : Cls) : clsPreds.t c = (c == .t) := rfl
+@[simp] theorem clsPreds_lv (c : Cls) : clsPreds.lv c = (c == .lv) := rfl
+@[simp] theorem clsPreds_lvt (c : Cls) : clsPreds.lvt c = (c == .lvt) := rfl
+@[simp] theorem clsPreds_zwj (c : Cls) : clsPreds.zwj c = (c == .zwj) := rfl
+@[simp] theorem clsPreds_extpict (c : Cls) : clsPreds.extpict c = (c == .extpict) := rfl
+
 /-- the table of class `X` as written in the Go source -/
 def goTable : Cls → List (Nat × Nat)
   | .other => []
